@@ -17,7 +17,11 @@ add("C31", "exploration",
     "Histories are small (5-60 operations). With conditions the answers depend on per-instance "
     "HashSet/HashMap iteration order, so a replay of a witness reproduces the divergence with high "
     "probability, not deterministically; the harness repeats queries for that reason. Operation ids, "
-    "heads, filters and the stored per-operation states are recorded, not judged.",
+    "heads, filters and the stored per-operation states are recorded, not judged. A transitive query "
+    "whose recursion (members_inner: no visited set, depth cap 1000) is predicted from the direct "
+    "memberships to need > 2e5 visits is not issued; the prediction is backed by one real probe per "
+    "process (query on a helper thread, 2 s) and, when > 2^40 visits and the probe did not return, "
+    "reported on state as 'query-does-not-return:nested-group-cycle' (never decided by a timeout alone).",
     quick=[st("vh-auth")],
     thorough=[st("vh-auth")],
     design_ref="DESIGN.md §1 C31")
